@@ -594,6 +594,9 @@ func (ab *dsAddrBook) setAddrs(p peer.ID, addrs []ma.Multiaddr, ttl time.Duratio
 		addrsMap[string(addr.Addr)] = addr
 	}
 
+	// connected entries that this call turns into unconnected ones; they
+	// count towards the per-peer cap from then on.
+	demoted := 0
 	updateExisting := func(incoming ma.Multiaddr) *pb.AddrBookRecord_AddrEntry {
 		existingEntry := addrsMap[string(incoming.Bytes())]
 		if existingEntry == nil {
@@ -602,6 +605,9 @@ func (ab *dsAddrBook) setAddrs(p peer.ID, addrs []ma.Multiaddr, ttl time.Duratio
 
 		switch mode {
 		case ttlOverride:
+			if ttlIsConnected(time.Duration(existingEntry.Ttl)) && !ttlIsConnected(ttl) {
+				demoted++
+			}
 			existingEntry.Ttl = int64(ttl)
 			existingEntry.Expiry = newExp
 		case ttlExtend:
@@ -670,7 +676,7 @@ func (ab *dsAddrBook) setAddrs(p peer.ID, addrs []ma.Multiaddr, ttl time.Duratio
 			// 		entries = append(entries, existingEntry)
 			// 	}
 			// } else {
-			if maxCap > 0 && incomingIsUnconnected && unconnectedCount >= maxCap {
+			if maxCap > 0 && incomingIsUnconnected && unconnectedCount+demoted >= maxCap {
 				if !evictNearestUnconnected() {
 					// Every existing addr is protected; drop the new one.
 					continue
